@@ -216,6 +216,28 @@ func (r *renderer) emit(depth int, s string) {
 				open, close = "注：「", "」"
 			}
 			inner := "多行" + r.l.eol()
+			// the text of a comment is free: quotes of the *other* kinds (balanced or not), the
+			// openers of the other comment forms - only the comment's own delimiter counts
+			switch r.l.Rng.Intn(6) {
+			case 0:
+				switch k % 3 {
+				case 1:
+					inner = "用法见「说明」一节，『又』及《书》" + r.l.eol()
+				case 2:
+					inner = "调用“显示”方法，‘又’及《书》" + r.l.eol()
+				default:
+					inner = "“引”「号」《都》可以 // 注：也可以" + r.l.eol()
+				}
+			case 1:
+				switch k % 3 {
+				case 1:
+					inner = "只有开头的「 和 『 和 《" + r.l.eol()
+				case 2:
+					inner = "只有开头的“ 和 ‘ 和 《" + r.l.eol()
+				default:
+					inner = "只有开头的“ 和 「 和 /* 再一次" + r.l.eol()
+				}
+			}
 			for e := r.l.Rng.Intn(4); e > 0; e-- {
 				inner += r.l.eol()
 			}
